@@ -101,6 +101,9 @@ func (R *Repository) isEntryLoaded(entry *Entry) bool {
 func (R *Repository) getOrAddEntry(identifier string, loader crlloader.CRLLoader, chains *core.CertificateChains) (*Entry, bool, error) {
 	R.crlRepositoryLock.Lock()
 	defer R.crlRepositoryLock.Unlock()
+	if R.crlRepository == nil {
+		return nil, false, errors.New("crl repository was closed")
+	}
 	entry := R.crlRepository[identifier]
 	if entry == nil {
 		entry, err := R.addNewEmptyEntry(loader, identifier, chains)
@@ -254,6 +257,9 @@ func (R *Repository) IsRevoked(certificate *x509.Certificate, locations *core.CR
 		}
 	}
 	identifiers := R.getCurrentIdentifiers()
+	if identifiers == nil {
+		return nil, errors.New("crl repository was closed")
+	}
 	for _, identifier := range identifiers {
 		status, err := R.checkCrl(certificate, identifier)
 		if err != nil {
@@ -272,6 +278,10 @@ func (R *Repository) checkCrl(certificate *x509.Certificate, identifier string) 
 		return nil, err
 	}
 	repositoryEntry := R.getEntrySync(identifier)
+	if repositoryEntry == nil && R.isClosed() {
+		//the entry vanished because of a concurrent shutdown, the revocation status is unknown
+		return nil, errors.New("crl repository was closed")
+	}
 	if repositoryEntry != nil {
 		repositoryEntry.entryLock.RLock()
 		defer repositoryEntry.entryLock.RUnlock()
@@ -292,6 +302,10 @@ func (R *Repository) checkCrl(certificate *x509.Certificate, identifier string) 
 func (R *Repository) getCurrentIdentifiers() []string {
 	R.crlRepositoryLock.RLock()
 	defer R.crlRepositoryLock.RUnlock()
+	if R.crlRepository == nil {
+		//repository was closed
+		return nil
+	}
 	keys := make([]string, 0, len(R.crlRepository))
 	for k := range R.crlRepository {
 		keys = append(keys, k)
@@ -609,8 +623,18 @@ func (R *Repository) Close() {
 	R.crlRepositoryLock.Lock()
 	defer R.crlRepositoryLock.Unlock()
 	for id, entry := range R.crlRepository {
-		R.closeRepositoryEntry(entry, id)
+		if entry != nil {
+			R.closeRepositoryEntry(entry, id)
+		}
 	}
+	//a nil map marks the repository as closed, lookups which are still in flight must fail instead of finding no crl
+	R.crlRepository = nil
+}
+
+func (R *Repository) isClosed() bool {
+	R.crlRepositoryLock.RLock()
+	defer R.crlRepositoryLock.RUnlock()
+	return R.crlRepository == nil
 }
 
 func (R *Repository) closeRepositoryEntry(entry *Entry, id string) {
